@@ -18,6 +18,7 @@ arbitrary commutative ring (ℤ, ℚ, ℝ, ℂ, ℤ/256, …) resp. field.
 import OdlModel.Lemmas.ResizeSpec
 import OdlModel.Lemmas.ResizeOp
 import OdlModel.Lemmas.ResizeLin
+import OdlModel.Lemmas.ResizeInv
 import Mathlib.Tactic.FieldSimp
 import Mathlib.Tactic.NormNum
 
@@ -736,3 +737,198 @@ example : resize1d .periodic .forward 3 8 4 (0 : Int) (fun _ => 1) = .error .per
 slice of the symmetric mode would be empty instead of reaching index 0. -/
 example : (pySlice ⟨some 1, some (-1), true⟩ 5).count = 0 ∧
     (pySlice ⟨some 1, noneIfMinusOne (-1), true⟩ 5).count = 2 := by decide
+
+/-! ### ROUND 4: the overlapping block in n dimensions, `ResizingOperator.inverse` and
+`ResizingOperator.derivative` (`Model/ResizeOperator.lean`: `ROp.call/.inverse/.derivative`,
+executed by the driver ops `opinv`, `opderiv`, `invoff` and compared with the real operators in
+the `derived` stream) -/
+
+section round4
+variable {K : Type} [CommRing K] [DecidableEq K]
+
+/-- **The overlapping block is copied unchanged, any number of axes** (growing in some axes
+while shrinking in others, every mode, every `pad_const`, all admissible shapes/offsets, all
+contents).  For every multi-index `idx` of the output whose coordinate lies in `[off, off + n)`
+on each growing axis (and anywhere in the output on the other axes), the n-d forward resize in
+the code's axis order returns the input entry at `srcIdx` = `idx - off` on growing axes,
+`idx + off` on shrinking axes, `idx` on unchanged axes. -/
+theorem C16.overlap_copied_nd (mode : Mode) (c : K) (sIn sOut offs : List Nat)
+    (h : AdmissibleND mode sIn sOut offs) (X : List Nat → K) (idx : List Nat)
+    (hidx : InOverlap sIn sOut offs idx) :
+    resizeAxes mode .forward c 0 sIn sOut offs X idx = X (srcIdx sIn sOut offs idx) := by
+  simpa using axes_overlap mode c sIn sOut offs [] idx X h hidx
+
+/-- non-vacuity: 2 × 4 → 4 × 2 (axis 0 grows at offset 1, axis 1 shrinks at offset 2), order1:
+output entry (2, 1) is input entry (1, 3) -/
+example : AdmissibleND .order1 [2, 4] [4, 2] [1, 2] ∧ InOverlap [2, 4] [4, 2] [1, 2] [2, 1] ∧
+    srcIdx [2, 4] [4, 2] [1, 2] [2, 1] = [1, 3] ∧
+    resizeAxes .order1 .forward (0 : Int) 0 [2, 4] [4, 2] [1, 2]
+      (fun idx => (10 * idx.getD 0 0 + idx.getD 1 0 : Nat)) [2, 1] = 13 := by
+  refine ⟨by simp [AdmissibleND, Admissible, PadOK], by simp [InOverlap, InOvAx],
+    by simp [srcIdx, srcAx], by decide⟩
+
+/-- **Cropping undoes extension, any number of axes.**  If no axis shrinks, extending `X` from
+shape `sIn` to `sOut` (any mode, any `pad_const`, any admissible offsets) and resizing the result
+back to `sIn` with the same offsets — in any mode `mode'`, with any constant `c'` — returns `X`
+on the whole box `sIn`. -/
+theorem C16.crop_extend_id_nd (mode mode' : Mode) (c c' : K) (sIn sOut offs : List Nat)
+    (h : AdmissibleND mode sIn sOut offs) (hext : Extends sIn sOut) (X : List Nat → K)
+    (idx : List Nat) (hidx : InBox sIn idx) :
+    resizeAxes mode' .forward c' 0 sOut sIn offs
+      (resizeAxes mode .forward c 0 sIn sOut offs X) idx = X idx := by
+  obtain ⟨h1, h2, h3⟩ := overlap_back mode sIn sOut offs idx h hext hidx
+  rw [C16.overlap_copied_nd mode' c' sOut sIn offs (admND_back mode mode' sIn sOut offs h hext)
+    _ idx h1, C16.overlap_copied_nd mode c sIn sOut offs h X _ h2, h3]
+
+/-- **`op.inverse` is a left inverse of an extension** (`ResizingOperator.inverse`: the operator
+between the swapped spaces with the same `pad_mode`, `pad_const` and offsets).  For every
+operator none of whose axes shrinks: if `op(X)` is accepted then `op.inverse(op(X))` is accepted
+and equals `X` on the whole domain box — every mode, every `pad_const`, any number of axes.
+(In restriction axes the inverse is only a right inverse: `C16.inverse_right_inverse`.) -/
+theorem C16.inverse_left_inverse (op : ROp K) (hl1 : op.sIn.length = op.sOut.length)
+    (hl2 : op.sIn.length = op.offs.length) (hext : Extends op.sIn op.sOut)
+    (X R : List Nat → K) (hR : op.call X = .ok R) :
+    ∃ R', op.inverse.call R = .ok R' ∧ ∀ idx, InBox op.sIn idx → R' idx = X idx := by
+  obtain ⟨mode, c, sIn, sOut, offs⟩ := op
+  simp only [ROp.call, ROp.inverse, resizeND] at hR ⊢ hl1 hl2 hext
+  cases hc : checkND mode .forward c sIn sOut offs with
+  | some e => rw [hc] at hR; cases hR
+  | none =>
+    rw [hc] at hR
+    simp only [Except.ok.injEq] at hR
+    subst hR
+    have hadm := (C16.nd_accepts_iff mode c sIn sOut offs hl1 hl2).1 hc
+    have hback := admND_back mode mode sIn sOut offs hadm hext
+    rw [(C16.nd_accepts_iff mode c sOut sIn offs hl1.symm (hl1 ▸ hl2)).2 hback]
+    exact ⟨_, rfl, fun idx hidx =>
+      C16.crop_extend_id_nd mode mode c c sIn sOut offs hadm hext X idx hidx⟩
+
+/-- **… and a right inverse of a restriction**: if no axis of `op` grows and `op.inverse(Y)` is
+accepted (the padding of the inverse respects the limits of the mode), then
+`op(op.inverse(Y))` is accepted and equals `Y` on the whole range box. -/
+theorem C16.inverse_right_inverse (op : ROp K) (hl1 : op.sIn.length = op.sOut.length)
+    (hl2 : op.sIn.length = op.offs.length) (hext : Extends op.sOut op.sIn)
+    (Y R : List Nat → K) (hR : op.inverse.call Y = .ok R) :
+    ∃ R', op.call R = .ok R' ∧ ∀ idx, InBox op.sOut idx → R' idx = Y idx := by
+  have := C16.inverse_left_inverse op.inverse (by simpa [ROp.inverse] using hl1.symm)
+    (by simpa [ROp.inverse] using (hl1 ▸ hl2)) (by simpa [ROp.inverse] using hext) Y R hR
+  simpa [ROp.inverse] using this
+
+/-- non-vacuity (symmetric 2 × 4 → 3 × 6 with offsets (0, 1)): extension, then the inverse
+returns the input -/
+example : ∃ R R', (⟨.symmetric, (0 : Int), [2, 4], [3, 6], [0, 1]⟩ : ROp Int).call
+      (fun idx => (idx.getD 1 0 : Int) + 1) = .ok R ∧
+    (⟨.symmetric, (0 : Int), [2, 4], [3, 6], [0, 1]⟩ : ROp Int).inverse.call R = .ok R' ∧
+    [R [2, 0], R [2, 5]] = [2, 3] ∧ [R' [0, 0], R' [0, 3]] = [1, 4] := by
+  have h1 : checkND .symmetric .forward (0 : Int) [2, 4] [3, 6] [0, 1] = none := by decide
+  have h2 : checkND .symmetric .forward (0 : Int) [3, 6] [2, 4] [0, 1] = none := by decide
+  refine ⟨resizeAxes .symmetric .forward 0 0 [2, 4] [3, 6] [0, 1]
+      (fun idx => (idx.getD 1 0 : Int) + 1),
+    resizeAxes .symmetric .forward 0 0 [3, 6] [2, 4] [0, 1]
+      (resizeAxes .symmetric .forward 0 0 [2, 4] [3, 6] [0, 1]
+        (fun idx => (idx.getD 1 0 : Int) + 1)), ?_, ?_, by decide, by decide⟩
+  · simp only [ROp.call, resizeND, h1]
+  · simp only [ROp.call, ROp.inverse, resizeND, h2]
+
+/-- **`op.derivative` is the linear part of `op`** (`ResizingOperator.derivative`: the
+zero-padding variant for `pad_mode='constant'`, `pad_const ≠ 0`, otherwise `self`).  For every
+operator (every mode, every `pad_const`, any number of axes, growing in some while shrinking in
+others) and all `X`, `X'`: if `op(X)` is accepted then so are `op(X')` and
+`op.derivative(X - X')`, and `op(X) - op(X') = op.derivative(X - X')` at EVERY multi-index.
+Hence `op` is affine and its derivative at any point is `op.derivative`; for a linear operator
+(`op.derivative = op`, by construction) this is additivity of `op`. -/
+theorem C16.derivative_is_linear_part (op : ROp K) (X X' R : List Nat → K)
+    (hR : op.call X = .ok R) :
+    ∃ R' D, op.call X' = .ok R' ∧ op.derivative.call (fun idx => X idx - X' idx) = .ok D ∧
+      ∀ idx, R idx - R' idx = D idx := by
+  obtain ⟨mode, c, sIn, sOut, offs⟩ := op
+  simp only [ROp.call, resizeND] at hR ⊢
+  cases hc : checkND mode .forward c sIn sOut offs with
+  | some e => rw [hc] at hR; cases hR
+  | none =>
+    rw [hc] at hR
+    simp only [Except.ok.injEq] at hR
+    subst hR
+    have hsub := fun idx => axes_fwd_sub mode c sIn sOut offs 0 X X' _ (fun _ => rfl) idx
+    by_cases hd : mode = .constant ∧ c ≠ 0
+    · obtain ⟨rfl, hc0⟩ := hd
+      simp only [ROp.derivative, hc0, ne_eq, not_false_eq_true, and_self, ↓reduceIte]
+      rw [checkND_fwd_c .constant 0 c, hc]
+      exact ⟨_, _, rfl, rfl, hsub⟩
+    · simp only [ROp.derivative, if_neg hd, hc]
+      refine ⟨_, _, rfl, rfl, fun idx => ?_⟩
+      rw [hsub idx]
+      by_cases hm : mode = .constant
+      · have : c = 0 := by
+          by_contra hne; exact hd ⟨hm, hne⟩
+        rw [this]
+      · exact (axes_c_irrelevant mode hm c sIn sOut offs 0 _ idx).symm
+
+/-- by construction: the derivative is linear, is `op` itself for a linear `op`, keeps spaces,
+mode and offsets, and the inverse of the inverse is `op` -/
+theorem C16.derivative_inverse_shape (op : ROp K) :
+    op.derivative.isLinear = true ∧ (op.isLinear = true → op.derivative = op) ∧
+      (op.derivative.mode, op.derivative.sIn, op.derivative.sOut, op.derivative.offs) =
+        (op.mode, op.sIn, op.sOut, op.offs) ∧
+      op.inverse.inverse = op ∧ op.inverse.derivative = op.derivative.inverse := by
+  obtain ⟨mode, c, sIn, sOut, offs⟩ := op
+  by_cases hd : mode = .constant ∧ c ≠ 0
+  · obtain ⟨rfl, hc0⟩ := hd
+    simp [ROp.derivative, ROp.isLinear, ROp.inverse, hc0]
+  · simp only [ROp.derivative, ROp.isLinear, ROp.inverse, if_neg hd]
+    by_cases hm : mode = .constant <;> simp_all
+
+/-- non-vacuity: `pad_const = 5`, 2 → 4 at offset 1 and a restriction axis 3 → 2 at offset 1 -/
+example : ∃ R R' D, (⟨.constant, (5 : Int), [2, 3], [4, 2], [1, 1]⟩ : ROp Int).call
+      (fun idx => ((3 * idx.getD 0 0 + idx.getD 1 0 : Nat) : Int)) = .ok R ∧
+    (⟨.constant, (5 : Int), [2, 3], [4, 2], [1, 1]⟩ : ROp Int).call (fun _ => 1) = .ok R' ∧
+    (⟨.constant, (5 : Int), [2, 3], [4, 2], [1, 1]⟩ : ROp Int).derivative.call
+      (fun idx => ((3 * idx.getD 0 0 + idx.getD 1 0 : Nat) : Int) - 1) = .ok D ∧
+    [R [0, 0], R [1, 0], R' [0, 0], R' [1, 0], D [0, 0], D [1, 0]] = [5, 1, 5, 1, 0, 0] ∧
+    (⟨.constant, (5 : Int), [2, 3], [4, 2], [1, 1]⟩ : ROp Int).derivative.c = 0 := by
+  have h1 : checkND .constant .forward (5 : Int) [2, 3] [4, 2] [1, 1] = none := by decide
+  have h0 : checkND .constant .forward (0 : Int) [2, 3] [4, 2] [1, 1] = none := by decide
+  refine ⟨resizeAxes .constant .forward 5 0 [2, 3] [4, 2] [1, 1]
+      (fun idx => ((3 * idx.getD 0 0 + idx.getD 1 0 : Nat) : Int)),
+    resizeAxes .constant .forward 5 0 [2, 3] [4, 2] [1, 1] (fun _ => 1),
+    resizeAxes .constant .forward 0 0 [2, 3] [4, 2] [1, 1]
+      (fun idx => ((3 * idx.getD 0 0 + idx.getD 1 0 : Nat) : Int) - 1),
+    ?_, ?_, ?_, by decide, by decide⟩
+  · simp only [ROp.call, resizeND, h1]
+  · simp only [ROp.call, resizeND, h1]
+  · simp [ROp.call, ROp.derivative, resizeND, h0]
+
+end round4
+
+/-- **The constructor called by `inverse` finds the same offsets.**  `ResizingOperator.inverse`
+does not pass `self.offset`; the new operator recomputes it with `_offset_from_spaces(range,
+domain)`.  For one axis with equal cell sides (`C16.range_cell_unchanged`; checked by the
+constructor for an explicit range) the result — offset or refusal — is the one of
+`_offset_from_spaces(domain, range)`, for all intervals and sizes: the model's `ROp.inverse`
+may keep the offsets. -/
+theorem C16.inverse_offset_same (dom ran : Axis Rat) (hcell : dom.cell = ran.cell) :
+    (match offsetFromAxes ran dom, offsetFromAxes dom ran with
+      | .ok k, .ok k' => k = k'
+      | .error e, .error e' => e = e'
+      | _, _ => False) := by
+  have hs : dom.n ≠ ran.n → shiftCells ran dom = shiftCells dom ran := by
+    intro hne
+    simp only [shiftCells, hcell]
+    rcases Nat.lt_or_gt_of_ne hne with h | h
+    · rw [if_neg (by omega), if_pos h]; ring
+    · rw [if_pos h, if_neg (by omega)]; ring
+  have hab : ((ran.n : Int) - dom.n).natAbs = ((dom.n : Int) - ran.n).natAbs := by omega
+  unfold offsetFromAxes
+  by_cases h0 : dom.n = ran.n
+  · rw [if_pos h0.symm, if_pos h0]
+    by_cases hg : dom.gridMin = ran.gridMin
+    · rw [if_pos hg.symm, if_pos hg]
+    · rw [if_neg (fun h => hg h.symm), if_neg hg]
+  · rw [if_neg (fun h => h0 h.symm), if_neg h0, hs h0, hab]
+    split_ifs <;> rfl
+
+/-- non-vacuity: domain `[0, 1]` in 4 cells, range `[-1/4, 5/4]` in 6 cells — offset 1 both ways -/
+example : offsetFromAxes ⟨-1/4, 5/4, 6, false, false⟩ ⟨0, 1, 4, false, false⟩ = .ok 1 := by
+  have h : shiftCells ⟨-1/4, 5/4, 6, false, false⟩ ⟨0, 1, 4, false, false⟩ = ((1 : Int) : Rat) := by
+    norm_num [shiftCells, Axis.gridMin, Axis.cell]
+  unfold offsetFromAxes; simp only [h]; simp
